@@ -9,7 +9,7 @@ From Pydra Require Import Base.Prelude Base.PyPath Model.Mount Model.CopyFiles S
    one FileSet.copy per distinct file-set of a field, nothing existing altered) *)
 Definition C34_full_statement : Prop :=
   forall (tab : table) (dest : string) (fs0 : fsT) (fields : list field),
-    dir_empty fs0 dest -> fields_ready tab dest fs0 fields ->
+    fields_ready tab dest fs0 fields ->
     exists outs fs1 av, job_inputs ff_copy tab dest fields fs0 = Ok (outs, fs1, av)
                         /\ staged tab dest fs0 fs1 fields (counts outs).
 
@@ -60,7 +60,7 @@ Proof. intros until 3. eapply g_mode, c34_staged; eauto. Qed.
 Print Assumptions C34_mode.
 
 Theorem C34_total :
-  forall tab dest fs0 fields, dir_empty fs0 dest -> fields_ready tab dest fs0 fields ->
+  forall tab dest fs0 fields, fields_ready tab dest fs0 fields ->
   exists r, job_inputs ff_copy tab dest fields fs0 = Ok r.
 Proof. exact c34_total. Qed.
 Print Assumptions C34_total.
